@@ -18,6 +18,8 @@
 #endif
 #define ID_ABA "C03-stale-last-user-aba"
 #define ID_DUP "C03-dup-tile-reader-count"
+#define ID_DUPNULL "C03-dup-tile-null-data-in"
+#define ID_DUPLOST "C03-dup-tile-lost-activation"
 
 typedef struct {
     const char *leg, *name, *sched, *alpha, *hash, *known;
@@ -30,7 +32,7 @@ static opts_t O;
 typedef struct { dh_stats_t st; int failed; char msg[3000]; char kv[1900]; char choices[DS_MAXPTS * 4]; } shared_t;
 static shared_t *SH;
 #define ST (&SH->st)
-/* extra[]: 0 tree nodes, 1 cases attributed to ABA, 2 AGAIN re-submissions, 3 cases attributed to DUP, 4 tasks overlapped with a held task, 5 witness: readers inside together; 6 max choice points */
+/* extra[]: 7 cases attributed to DUP-NULL, 8 cases attributed to DUP-LOST, 10 max choice points (was 6); 0 tree nodes, 1 cases attributed to ABA, 2 AGAIN re-submissions, 3 cases attributed to DUP, 4 tasks overlapped with a held task, 5 witness: readers inside together; 6 max choice points */
 
 static void parse_opts(int argc, char **argv)
 {
@@ -214,7 +216,7 @@ static int dfs_case(const dd_prog_t *p, const dd_cfg_t *cfg)
     while (ex.stack) { ds_item_t *n = ex.stack->next; free(ex.stack); ex.stack = n; ex.exhaustive = 0; }
     ds_ex = NULL;
     ST->transitions += ex.transitions; ST->nontrivial += ex.nontrivial; ST->extra[0] += ex.nodes;
-    if (ex.max_points > ST->extra[6]) ST->extra[6] = ex.max_points;
+    if (ex.max_points > ST->extra[10]) ST->extra[10] = ex.max_points;
     if (!ex.exhaustive && !L.replay) ST->exhaustive = 0;
     return bad;
 }
@@ -226,6 +228,24 @@ static int child_case(void *a) { carg_t *c = (carg_t *)a; return one_case(c->p, 
 static void emit_failure(void)
 {
     dh_violation_kv(O.name, SH->kv, SH->msg); ST->violations++; ST->exhaustive = 0;
+}
+/* structural predicates of the two further dup-tile findings */
+/* task j names tile x in an earlier writable parameter k1 and a later INPUT parameter k2, and an earlier task uses x: returns k2 (or -1) for task j */
+static int pred_dup_null(const dd_prog_t *p, int j)
+{
+    const dd_task_t *T = &p->t[j];
+    for (int k1 = 0; k1 < T->np; k1++) for (int k2 = k1 + 1; k2 < T->np; k2++) if (T->tile[k1] == T->tile[k2] && T->mode[k1] != DD_R && T->mode[k2] == DD_R) {
+        for (int i = 0; i < j; i++) for (int k = 0; k < p->t[i].np; k++) if (p->t[i].tile[k] == T->tile[k1]) return k2;
+    }
+    return -1;
+}
+/* some task names tile x in two INPUT parameters and a LATER task reads x */
+static int pred_dup_lost(const dd_prog_t *p)
+{
+    for (int j = 0; j < p->nt; j++) { const dd_task_t *T = &p->t[j];
+        for (int k1 = 0; k1 < T->np; k1++) for (int k2 = k1 + 1; k2 < T->np; k2++) if (T->tile[k1] == T->tile[k2] && T->mode[k1] == DD_R && T->mode[k2] == DD_R)
+            for (int i = j + 1; i < p->nt; i++) for (int k = 0; k < p->t[i].np; k++) if (p->t[i].tile[k] == T->tile[k1] && p->t[i].mode[k] == DD_R) return 1; }
+    return 0;
 }
 /* returns 1 if a (non attributed) violation was reported */
 static int run_case(const dd_prog_t *p, const dd_cfg_t *cfg)
@@ -247,6 +267,25 @@ static int run_case(const dd_prog_t *p, const dd_cfg_t *cfg)
     if (dd_prog_has_dup(p) && reader_sig && dd_norecycle) {
         if (is_known(ID_DUP)) { if (ST->extra[3]++ == 0) dh_stats_sample(ST, "KNOWN %s: %s", ID_DUP, SH->kv); return 0; }
         emit_failure(); return 1;
+    }
+    /* finding DUP-NULL: SIGSEGV raised by the body on a NULL data pointer for exactly the later duplicate parameter of a task matching the predicate */
+    if (dd_prog_has_dup(p) && dd_norecycle && r == 2 && sig == SIGSEGV) {
+        int pk = -1, pt = -1; const char *q = strstr(err, "NULL data pointer for parameter ");
+        if (q && sscanf(q, "NULL data pointer for parameter %d of task %d", &pk, &pt) == 2 && pt >= 0 && pt < p->nt && pred_dup_null(p, pt) == pk) {
+            if (is_known(ID_DUPNULL)) { if (ST->extra[7]++ == 0) dh_stats_sample(ST, "KNOWN %s: %s", ID_DUPNULL, SH->kv); return 0; }
+            emit_failure(); return 1;
+        }
+    }
+    /* finding DUP-LOST: hang (no wrong value), program matches the predicate, confirmed by a re-run alone with a 4x limit */
+    if (dd_prog_has_dup(p) && dd_norecycle && r == 3 && pred_dup_lost(p)) {
+        shared_t keep = *SH; char err2[600]; int sig2 = 0; SH->failed = 0;
+        int r2 = dh_isolated(child_case, &ca, 4 * dh_hang_s, err2, sizeof(err2), &sig2);
+        dh_stats_t now = SH->st; *SH = keep; SH->st = now;
+        if (r2 == 3) {
+            if (is_known(ID_DUPLOST)) { if (ST->extra[8]++ == 0) dh_stats_sample(ST, "KNOWN %s: %s", ID_DUPLOST, SH->kv); return 0; }
+            emit_failure(); return 1;
+        }
+        if (r2 == 0) { ST->exhaustive = ST->exhaustive; return 0; }     /* slow, not a hang */
     }
     /* finding ABA: differential re-run of the identical case (same choice list) with task-object recycling disabled */
     if (!dd_norecycle && (leg_is("gate") || leg_is("hold") || O.threads == 1)) {
@@ -428,7 +467,7 @@ int main(int argc, char **argv)
     R_hang = atof(dh_arg(argc, argv, "--hang", "0"));
     if (dh_replay_file) return do_replay();
     if (R_hang > 0) dh_hang_s = R_hang;
-    double t0 = dh_now(); dh_stats_t st; char extra[600];
+    double t0 = dh_now(); dh_stats_t st; char extra[900];
     scheds_parse(dh_arg(argc, argv, "--exclude", ""));
     ALLSCHEDS = leg_is("scheds") || atoi(dh_arg(argc, argv, "--allscheds", "0"));
     if (leg_is("scheds")) O.leg = "inproc";
@@ -437,9 +476,10 @@ int main(int argc, char **argv)
     if (ALLSCHEDS) { static char sl[128]; sl[0] = 0; for (int i = 0; i < NSCHEDS; i++) { strcat(sl, i ? "," : ""); strcat(sl, SCHEDS[i]); } O.sched = sl; }
     if (st.extra[1]) printf("KNOWN-FINDING: property=%s %s leg=%s: %ld case(s) fail with task-object recycling on and pass, identical choice list, with recycling disabled\n", DTD_PROPERTY, ID_ABA, O.name, st.extra[1]);
     if (st.extra[3]) printf("KNOWN-FINDING: property=%s %s leg=%s: %ld program/configuration case(s) with a tile named twice by one task abort on the reader-count assertion\n", DTD_PROPERTY, ID_DUP, O.name, st.extra[3]);
-    st.extra[7] = 0;
-    snprintf(extra, sizeof(extra), "\"programs\":%ld,\"threads\":%d,\"sched\":\"%s\",\"recycling\":%s,\"tree_nodes\":%ld,\"max_choice_points\":%ld,\"again_resubmissions\":%ld,\"attributed_aba\":%ld,\"attributed_dup\":%ld,\"overlapped_with_held\":%ld,\"runs_with_readers_together\":%ld",
-             st.states, O.threads, O.sched[0] ? O.sched : "default", dd_norecycle ? "false" : "true", st.extra[0], st.extra[6], st.extra[2], st.extra[1], st.extra[3], st.extra[4], st.extra[5]);
+    if (st.extra[7]) printf("KNOWN-FINDING: property=%s %s leg=%s: %ld case(s): the body of a task naming a tile in a writable and then an INPUT parameter got a NULL data pointer for the later parameter\n", DTD_PROPERTY, ID_DUPNULL, O.name, st.extra[7]);
+    if (st.extra[8]) printf("KNOWN-FINDING: property=%s %s leg=%s: %ld case(s): a reader after a task naming the tile in two INPUT parameters is never activated (hang confirmed with a 4x limit, no wrong value)\n", DTD_PROPERTY, ID_DUPLOST, O.name, st.extra[8]);
+    snprintf(extra, sizeof(extra), "\"programs\":%ld,\"threads\":%d,\"sched\":\"%s\",\"recycling\":%s,\"tree_nodes\":%ld,\"max_choice_points\":%ld,\"again_resubmissions\":%ld,\"attributed_aba\":%ld,\"attributed_dup\":%ld,\"attributed_dup_null\":%ld,\"attributed_dup_lost\":%ld,\"overlapped_with_held\":%ld,\"runs_with_readers_together\":%ld",
+             st.states, O.threads, O.sched[0] ? O.sched : "default", dd_norecycle ? "false" : "true", st.extra[0], st.extra[10], st.extra[2], st.extra[1], st.extra[3], st.extra[7], st.extra[8], st.extra[4], st.extra[5]);
     dh_report(O.name, &st, dh_now() - t0, extra);
     return dh_finish(st.violations, st.broken);
 }
